@@ -1,6 +1,6 @@
 (** Harness glue for C10: chain descriptors -> deep embedding, closed closure library. *)
 From Coq Require Import List ZArith Bool String.
-From KV Require Import Base.Prelude Model.Dsl Spec.Dsl Glue.Val.
+From KV Require Import Base.Prelude Model.Dsl Model.DslPulls Spec.Dsl Glue.Val.
 Import ListNotations.
 Local Open Scope Z_scope.
 
@@ -120,8 +120,9 @@ Definition c10_run (fam : string) (args : list val) : option string :=
       | Some ads, Some c =>
           if String.eqb fam "c10.eval" then Some (show_dval (macro_sem ads c srcl))
           else if String.eqb fam "c10.spec" then Some (show_dval (std_sem ads c srcl))
+          else if String.eqb fam "c10.pull" then Some (show_Z (Z.of_nat (pulled ads c srcl)))
           else None
-      | _, _ => if String.eqb fam "c10.eval" || String.eqb fam "c10.spec" then Some "!chain" else None
+      | _, _ => if String.eqb fam "c10.eval" || String.eqb fam "c10.spec" || String.eqb fam "c10.pull" then Some "!chain" else None
       end
   | _ => None
   end.
